@@ -137,7 +137,8 @@ func runC14(c *Ctx) {
 
 		for _, g := range AllClosures(f) {
 			for _, in := range Find(g, StoreToField("LabelTerm", "Op")) {
-				ctorOp[f.Name()] = strings.TrimPrefix(p.Desc(in.(*ssa.Store).Val), "const:")
+				// (a constant, possibly handed through a shared constructor helper and captured by the option literal)
+				ctorOp[f.Name()] = strings.TrimPrefix(strings.ReplaceAll(p.Desc(in.(*ssa.Store).Val), "free:", ""), "const:")
 			}
 
 			if _, ok := ctorOp[f.Name()]; !ok {
@@ -345,7 +346,7 @@ func runC14(c *Ctx) {
 
 			return ok && p.CalleeName(call) == "builtin.append" && Glob("*var:[]pkg/resource.Resource", p.Desc(call.Call.Args[0]))
 		}, CutSpec{Edges: func(e EdgeInfo) bool {
-			return strings.HasPrefix(e.Facts[0], "true(call:") && strings.Contains(e.Facts[0], "WatchAll$")
+			return AnyFact(e, func(f string) bool { return strings.HasPrefix(f, "true(call:") && strings.Contains(f, "WatchAll$") })
 		}}, 1)
 	}
 
@@ -418,7 +419,7 @@ func runC14(c *Ctx) {
 
 	if f := p.Method(pkgResource, "LabelQueries", "Matches"); c.NeedFunc("R14.4", f, "LabelQueries.Matches") {
 		c.MustCut("R14.4", "LabelQueries: return true ⊣ {no queries, some query matches}", f, p.RetIs(0, "const:true"),
-			CutSpec{Edges: FactEdge("eq(call:builtin.len(param#0),const:0)", "true(call:(pkg/resource.LabelQuery).Matches(*,param#1))")}, 2)
+			CutSpec{Edges: FactEdge("eq(call:builtin.len(param#0),const:0)", "true(call:(pkg/resource.LabelQuery).Matches(*,param#1))", "true(call:(pkg/resource.LabelQuery).Matches(*,free:param#1))")}, 1)
 		c.NoReach("R14.4", "LabelQueries: a matching query ends with true", f, p.EdgeSuccs(f, "true(call:(pkg/resource.LabelQuery).Matches(*"), 1, p.RetIs(0, "const:false"), CutSpec{})
 	}
 
